@@ -14,7 +14,7 @@ fn info_step(uv: UvState) -> Step { let mut s = step(Op::Make(MakeOp { cdh: vec!
 
 pub fn cases(ctx: &mut Ctx) -> Vec<Case> {
     let mut out = vec![];
-    let rps = ["a.example.com", "b.example.org"];
+    let rps = ["a.example.com", "b.example.org", "Login.Example.COM"];
     let kinds = [Kind::RefFull, Kind::Map, Kind::Slot, Kind::RefNonDisc, Kind::RefForced, Kind::MapArcMutex];
     let uvs = [UvState::ok(), UvState { answer: Ok((true, false)), ..UvState::ok() }, UvState { answer: Ok((false, true)), ..UvState::ok() },
         UvState { verification: Some(false), ..UvState::ok() }, UvState { verification: None, presence_enabled: false, answer: Ok((true, true)) }, UvState { answer: Err(0x27), ..UvState::ok() }];
